@@ -135,17 +135,17 @@ def gatherAll (s : Ev) : Ev :=
 /-- `dump_jobs_done_to_csv` (internals are C04's model): every job of `jobs_done` becomes a row -/
 def dump (s : Ev) : Ev := { s with rows := s.rows + s.pending, pending := 0 }
 
-/-- the `while` loop of `_search`; consumes one `Step` per iteration -/
+/-- the `while` loop of `_search`; consumes one `Step` per gather -/
 def loop (strict : Bool) (target : Int) : Ev → Nat → List Step → Ev × Stop
   | s, nAsk, env =>
     if target < 0 ∨ numEvals strict s < target then
-      match env with
-      | [] => (s, .envExhausted)
-      | st :: rest =>
-        let s0 := { s with asks := s.asks ++ [nAsk] }
-        let sub := submit s0 nAsk
-        if sub.2 then (sub.1, .cap)
-        else
+      let s0 := { s with asks := s.asks ++ [nAsk] }
+      let sub := submit s0 nAsk
+      if sub.2 then (sub.1, .cap)
+      else
+        match env with
+        | [] => (sub.1, .envExhausted)
+        | st :: rest =>
           let ga := gatherBatch1 sub.1 st.g
           match ga.2 with
           | .noJobs => (ga.1, .noJobs)
